@@ -3,7 +3,7 @@
 // Contracts for package generator, checked by /verif/govc (comment-only; compiled only with -tags verif).
 package generator
 
-//@ prelude c13 c07
+//@ prelude c13 c07 c01
 
 // ---- text is data (C13) -------------------------------------------------------------------------------------
 
@@ -35,3 +35,141 @@ package generator
 
 //@ func pkg(profile profile.Profile) string
 //@   ensures [C07:package-line] result == "package profile_" + reReplaceAll(reCompile("[^a-zA-Z0-9]+"), strToLower(profile.Name), "_") + "\n"
+
+// ---- failure branches mean "the formula does not hold" (C01) ---------------------------------------------------------
+// anyFails / anyFailsG / allFail / simplesFail / opBranchOk ... are folds defined in spec/c01.smt2.
+// The meaning of each leaf fragment (atomFails of the emitted lines) is an assumed clause (A-FRAGMENT): it rests on OPA.
+
+//@ func GenerateCount(count profile.CountRule, iriExpander *misc.IriExpander) []SimpleRegoResult
+//@   ensures [C01:single-result] len(result) == 1 && result == snoc(empty(Seq_S_generator_SimpleRegoResult), result[0])
+//@   ensures-assumed [C01:A-FRAGMENT] atomFails(result[0]) == !holds(box(profile.CountRule, count))
+
+//@ func GenerateDatatype(datatype profile.DatatypeRule, iriExpander *misc.IriExpander) []SimpleRegoResult
+//@   ensures [C01:single-result] len(result) == 1 && result == snoc(empty(Seq_S_generator_SimpleRegoResult), result[0])
+//@   ensures-assumed [C01:A-FRAGMENT] atomFails(result[0]) == !holds(box(profile.DatatypeRule, datatype))
+
+//@ func GenerateNumericComparison(num profile.NumericRule, iriExpander *misc.IriExpander) []SimpleRegoResult
+//@   ensures [C01:single-result] len(result) == 1 && result == snoc(empty(Seq_S_generator_SimpleRegoResult), result[0])
+//@   ensures-assumed [C01:A-FRAGMENT] atomFails(result[0]) == !holds(box(profile.NumericRule, num))
+
+//@ func GeneratePattern(pattern profile.PatternRule, iriExpander *misc.IriExpander) []SimpleRegoResult
+//@   ensures [C01:single-result] len(result) == 1 && result == snoc(empty(Seq_S_generator_SimpleRegoResult), result[0])
+//@   ensures-assumed [C01:A-FRAGMENT] atomFails(result[0]) == !holds(box(profile.PatternRule, pattern))
+
+//@ func GeneratePropertyComparison(comparison profile.PropertyComparisonRule, iriExpander *misc.IriExpander) []SimpleRegoResult
+//@   ensures [C01:single-result] len(result) == 1 && result == snoc(empty(Seq_S_generator_SimpleRegoResult), result[0])
+//@   ensures-assumed [C01:A-FRAGMENT] atomFails(result[0]) == !holds(box(profile.PropertyComparisonRule, comparison))
+
+//@ func GenerateRegoRule(rule profile.RegoRule, iriExpander *misc.IriExpander) []SimpleRegoResult
+//@   ensures [C01:single-result] len(result) == 1 && result == snoc(empty(Seq_S_generator_SimpleRegoResult), result[0])
+//@   ensures-assumed [C01:A-FRAGMENT] atomFails(result[0]) == !holds(box(profile.RegoRule, rule))
+
+//@ func GenerateScalarIntersectSetRule(containsSome profile.ScalarSetRule, iriExpander *misc.IriExpander) []SimpleRegoResult
+//@   ensures [C01:single-result] len(result) == 1 && result == snoc(empty(Seq_S_generator_SimpleRegoResult), result[0])
+//@   ensures-assumed [C01:A-FRAGMENT] atomFails(result[0]) == !holds(box(profile.ScalarSetRule, containsSome))
+
+//@ func GenerateScalarSubSetRule(containsAll profile.ScalarSetRule, iriExpander *misc.IriExpander) []SimpleRegoResult
+//@   ensures [C01:single-result] len(result) == 1 && result == snoc(empty(Seq_S_generator_SimpleRegoResult), result[0])
+//@   ensures-assumed [C01:A-FRAGMENT] atomFails(result[0]) == !holds(box(profile.ScalarSetRule, containsAll))
+
+//@ func GenerateScalarSuperSetRule(in profile.ScalarSetRule, iriExpander *misc.IriExpander) []SimpleRegoResult
+//@   ensures [C01:single-result] len(result) == 1 && result == snoc(empty(Seq_S_generator_SimpleRegoResult), result[0])
+//@   ensures-assumed [C01:A-FRAGMENT] atomFails(result[0]) == !holds(box(profile.ScalarSetRule, in))
+
+//@ func GenerateUniqueValues(uniqueValues profile.UniqueValuesRule, iriExpander *misc.IriExpander) []SimpleRegoResult
+//@   ensures [C01:single-result] len(result) == 1 && result == snoc(empty(Seq_S_generator_SimpleRegoResult), result[0])
+//@   ensures-assumed [C01:A-FRAGMENT] atomFails(result[0]) == !holds(box(profile.UniqueValuesRule, uniqueValues))
+
+//@ func generateCountRule(count profile.CountRule, condition string, iriExpander *misc.IriExpander) []SimpleRegoResult
+//@   ensures [C01:single-result] len(result) == 1 && result == snoc(empty(Seq_S_generator_SimpleRegoResult), result[0])
+
+//@ func generateNumericRule(num profile.NumericRule, rule string, op string, iriExpander *misc.IriExpander) []SimpleRegoResult
+//@   ensures [C01:single-result] len(result) == 1 && result == snoc(empty(Seq_S_generator_SimpleRegoResult), result[0])
+
+//@ func generateNested(exp profile.NestedExpression, iriExpander *misc.IriExpander) []GeneratedRegoResult
+//@   requires [C01:operand] okOperand(exp.Value)
+//@   ensures [C01:one-branch] len(result) == 1 && allResults(result) && hasBranch(result) && simplesFail(result) && anyBranchFailsG(result) == anyFailsG(result)
+//@   ensures-assumed [C01:A-FRAGMENT] anyFailsG(result) == !holds(box(profile.NestedExpression, exp))
+
+//@ func GenerateNestedExpression(exp profile.Rule, iriExpander *misc.IriExpander) []GeneratedRegoResult
+//@   requires [C01:nested] is(exp, profile.NestedExpression) && okOperand(exp)
+//@   ensures [C01:one-branch] len(result) == 1 && allResults(result) && hasBranch(result) && simplesFail(result) && anyBranchFailsG(result) == anyFailsG(result)
+//@   ensures [C01:fails-iff-not-holds] anyFailsG(result) == !holds(exp)
+
+//@ func simpleAsGeneratedRegoResult(simple []SimpleRegoResult) []GeneratedRegoResult
+//@   ensures [C01:boxed] len(result) == len(simple) && anyFailsG(result) == anyAtomFails(simple) && simplesFail(result) == allFail(simple) && !hasBranch(result) && allResults(result)
+//@   loop 1 /* for i, s := range simple */
+//@     invariant [C01] len(acc) == len(simple) && anyFailsG(take(acc, #i)) == anyAtomFails(take(simple, #i)) && simplesFail(take(acc, #i)) == allFail(take(simple, #i)) && !hasBranch(take(acc, #i)) && allResults(take(acc, #i))
+
+//@ func branchAsGeneratedRegoResult(simple []BranchRegoResult) []GeneratedRegoResult
+//@   ensures [C01:boxed] len(result) == len(simple) && anyFailsG(result) == anyFails(simple) && simplesFail(result) && anyBranchFailsG(result) == anyFails(simple) && hasBranch(result) == (len(simple) > 0) && allResults(result)
+//@   loop 1 /* for i, s := range simple */
+//@     invariant [C01] len(acc) == len(simple) && anyFailsG(take(acc, #i)) == anyFails(take(simple, #i)) && simplesFail(take(acc, #i)) && anyBranchFailsG(take(acc, #i)) == anyFails(take(simple, #i)) && hasBranch(take(acc, #i)) == (#i > 0) && allResults(take(acc, #i))
+
+//@ func Dispatch(r profile.Rule, iriExpander *misc.IriExpander) []GeneratedRegoResult
+//@   requires [C01:operand] okOperand(r)
+//@   ensures [C01:fails-iff-not-holds] anyFailsG(result) == !holds(r)
+//@   ensures [C01:operand-view] (simplesFail(result) && opBranchOk(result)) == !holds(r)
+//@   ensures [C01:results] allResults(result) && len(result) >= 1
+
+//@ func GenerateAnd(and profile.AndRule, iriExpander *misc.IriExpander) []BranchRegoResult
+//@   requires [C01:wf] wfRule(box(profile.AndRule, and))
+//@   ensures [C01:fails-iff-not-holds] anyFails(result) == !holds(box(profile.AndRule, and))
+//@   ensures [C01:non-empty] len(result) >= 1
+//@   loop 1 /* for _, r := range and.Body */
+//@     invariant [C01] anyFails(branches) == !allHold(take(and.Body, #i)) && (#i >= 1 ==> len(branches) >= 1)
+//@   loop 2 /* for _, rr := range results */
+//@     invariant [C01] anyFails(branches) == (!allHold(take(and.Body, #i@1)) || anyFailsG(take(results, #i))) && ((#i@1 >= 1 || #i >= 1) ==> len(branches) >= 1)
+
+//@ func collectAllResults(or profile.OrRule, iriExpander *misc.IriExpander) [][]GeneratedRegoResult
+//@   requires [C01:operands] allOk(or.Body)
+//@   ensures [C01:operand-views] len(result) == len(or.Body) && (allSimplesFail(result) && allOpBranchOk(result)) == !anyHold(or.Body)
+//@   loop 1 /* for i, r := range or.Body */
+//@     invariant [C01] len(acc) == len(or.Body) && (allSimplesFail(take(acc, #i)) && allOpBranchOk(take(acc, #i))) == !anyHold(take(or.Body, #i))
+
+//@ func filterSimpleResults(rego [][]GeneratedRegoResult) []SimpleRegoResult
+//@   ensures [C01:all-simples] allFail(result) == allSimplesFail(rego)
+//@   loop 1 /* for _, r := range rego */
+//@     invariant [C01] allFail(acc) == allSimplesFail(take(rego, #i))
+//@   loop 2 /* for _, rr := range r */
+//@     invariant [C01] allFail(acc) == (allSimplesFail(take(rego, #i@1)) && simplesFail(take(r, #i)))
+
+//@ func filterBranchesResult(rego [][]GeneratedRegoResult) [][]BranchRegoResult
+//@   ensures [C01:branch-sets] allAnyB(result) == allOpBranchOk(rego)
+//@   ensures [C01:non-empty-sets] allNonEmptyB(result)
+//@   loop 1 /* for _, r := range rego */
+//@     invariant [C01] allAnyB(acc) == allOpBranchOk(take(rego, #i)) && allNonEmptyB(acc)
+//@   loop 2 /* for _, rr := range r */
+//@     invariant [C01] anyFails(branches) == anyBranchFailsG(take(r, #i)) && (len(branches) > 0) == hasBranch(take(r, #i))
+
+//@ func expandBranches(regoResults []SimpleRegoResult, branchsets [][]BranchRegoResult) []BranchRegoResult
+//@   ensures [C01:cross-product] anyFails(result) == (allFail(regoResults) && allAnyB(branchsets))
+//@   requires [C01:non-empty-sets] allNonEmptyB(branchsets)
+//@   ensures [C01:non-empty] len(result) >= 1
+//@   loop 1 /* for _, branches := range branchsets */
+//@     invariant [C01] anyAllF(acc) == (allFail(regoResults) && allAnyB(take(branchsets, #i))) && len(acc) >= 1
+//@   loop 2 /* for _, branch := range branches */
+//@     invariant [C01] anyAllF(newAcc) == (anyAllF(acc) && anyFails(take(branches, #i))) && (#i >= 1 ==> len(newAcc) >= 1)
+//@   loop 3 /* for _, sourceBranchArray := range acc */
+//@     invariant [C01] anyAllF(newAcc) == ((anyAllF(acc) && anyFails(take(branches, #i@2))) || (allFail(branch.Branch) && anyAllF(take(acc, #i)))) && ((#i@2 >= 1 || #i >= 1) ==> len(newAcc) >= 1)
+//@   loop 4 /* for _, r := range branch.Branch */
+//@     invariant [C01] allFail(sourceExpanded) == (allFail(sourceBranchArray) && allFail(take(branch.Branch, #i)))
+//@   loop 5 /* for i, rs := range acc */
+//@     invariant [C01] len(orAcc) == len(acc) && anyFails(take(orAcc, #i)) == anyAllF(take(acc, #i))
+
+//@ func GenerateOr(or profile.OrRule, iriExpander *misc.IriExpander) []BranchRegoResult
+//@   requires [C01:operands] allOk(or.Body) && len(or.Body) >= 1
+//@   ensures [C01:fails-iff-not-holds] anyFails(result) == !holds(box(profile.OrRule, or))
+//@   ensures [C01:non-empty] len(result) >= 1
+
+//@ func GenerateConditional(conditional profile.ConditionalRule, iriExpander *misc.IriExpander) []BranchRegoResult
+//@   requires [C01:wf] wfRule(box(profile.ConditionalRule, conditional))
+//@   ensures [C01:fails-iff-not-holds] anyFails(result) == !holds(box(profile.ConditionalRule, conditional))
+//@   ensures [C01:non-empty] len(result) >= 1
+
+//@ func generateTopLevel(exp profile.TopLevelExpression, iriExpander *misc.IriExpander) string
+//@   requires [C01:operand] okOperand(exp.Value)
+//@   verify [C01]
+
+//@ func wrapTopLevelRegoResult(e profile.TopLevelExpression, results []GeneratedRegoResult, iriExpander *misc.IriExpander) string
+//@   requires [C01:branches-mean-failure] anyFailsG(results) == !(holds(e.Value) != e.Negated)
